@@ -639,6 +639,8 @@ MANIFEST = {
             "the decorated function is the plain method, and its body touches nothing but self.privilege_levels, self.logger and its argument — any hand-made memo makes the translator "
             "refuse); refuted for a key without the object (C05_cache_shared_key_refuted). Confronted with 2-3 real driver objects of one platform (model-compared, NX-OS / EOS session "
             "tables) and of different platforms (oracle-only: python re over each object's own table). "
+            "C05_cache_bounded / C05_cache_bounded_objects (proofs/PromptCacheBound_Proofs.v): on EVERY history of one object or of any number of interleaved objects the memo "
+            "stays a well-formed LRU store — never more entries than the capacity read from the source, never two entries for one key — whatever the classifier and the key discipline. "
             "Session names that are names of existing levels (a core level, a session registered before; oracle-only): whatever register_configuration_session does — the tree refuses — "
             "every prompt of the base grammars still maps to its own level(s). "
             "Edit-locality (oracle-only): an in-place edit of ONE level object (not_contains appended to / entry removed, pattern text changed) leaves every other level's "
